@@ -1,5 +1,184 @@
-(* C04 stub (replaced below) *)
-From PV Require Import Base Select lemmas.SelectLemmas lemmas.SelectReader lemmas.SelectFrag.
-Definition C04_full_statement : Prop := True.
-Theorem C04_holds : C04_full_statement. Proof. exact I. Qed.
-Print Assumptions C04_holds.
+(* C04 — SELECT statements mean what was built (checked on a real engine).
+
+   PARTIAL.  The property has two halves.
+   * Syntactic half (this file, proved): the text pypika renders for a SELECT is, clause by clause and in SQLite's
+     grammatical order, the specification that was built -- no item dropped, duplicated or moved to another clause,
+     every expression the rendering of the specified term in its clause's context -- and, for flat SQLite statements
+     whose expressions lie in C02's fragment, a reader that uses the sqlite precedence table for every expression reads
+     the rendered tokens back as exactly the specified statement (expressions up to C02's re-association).
+   * Engine half (NOT a Coq statement, validated on every run by harness/props/C04.py): SQLite accepts the text and
+     returns the same rows as a maximally explicit text written without pypika, on two seeded databases.
+   This file holds only statements, closing [exact]s and Print Assumptions. *)
+From PV Require Import Base Crit gen.TermsTable Terms Page gen.QueryTable Query QueryCorr Parse C02Model C02Expected C02Frag gen.C04Table Select.
+From PV Require Import lemmas.ParseMono lemmas.ParsePrint lemmas.C02Lemmas lemmas.C02Final.
+From PV Require Import lemmas.SelectLemmas lemmas.SelectReader lemmas.SelectFrag lemmas.SelectText lemmas.SelectMono.
+From Coq Require Import Lia Arith.
+Local Open Scope string_scope.
+
+(* ------------------------------------------------------------------------------------------- *)
+(* the syntactic half as one statement                                                           *)
+(* ------------------------------------------------------------------------------------------- *)
+(* for a flat statement x with a token view ts and a denoted abstract statement a: the model's text of x is ts
+   flattened, and the reader reads ts as a (for every sufficiently large fuel) *)
+Definition reads_back (x : query) : Prop :=
+  forall fl ts a, flat_of x = Some fl -> flat_toks fl = Some ts -> flat_ast fl = Some a ->
+    str_query x = Ok (sflatten ts) /\ exists F, forall f, F <= f -> read_select f ts = Some a.
+
+Definition C04_full_statement : Prop := forall x, reads_back x.
+
+(* refuted: C02's defects are statements too.  SELECT -(a+b) FROM t renders -"a"+"b", which reads as (-a)+b *)
+Definition w_x : query :=
+  QSel CSQLLite [] false [IT (TNeg (TArith OAdd (TField "a" None None) (TField "b" None None) None))]
+       [SrcT {| tname := "t"; tschema := []; talias := None |}] [] None None [] [] None None false None.
+
+Theorem C04_witness :
+  exists fl ts a a', flat_of w_x = Some fl /\ flat_toks fl = Some ts /\ flat_ast fl = Some a
+    /\ sflatten ts = "SELECT -""a""+""b"" FROM ""t"""
+    /\ read_select 100 ts = Some a' /\ a <> a' /\ sel_frag w_x = false.
+Proof. vm_compute. do 4 eexists. repeat split; try reflexivity. intros C. discriminate C. Qed.
+Print Assumptions C04_witness.
+
+Theorem C04_refuted : ~ C04_full_statement.
+Proof.
+  intros H. destruct C04_witness as [fl [ts [a [a' [E1 [E2 [E3 [_ [R [N _]]]]]]]]]].
+  destruct (H w_x fl ts a E1 E2 E3) as [_ [F HF]].
+  specialize (HF (max F 100) (Nat.le_max_l _ _)).
+  pose proof (read_select_mono 100 (max F 100) ts a' (Nat.le_max_r _ _) R) as R'. congruence.
+Qed.
+Print Assumptions C04_refuted.
+
+(* on the fragment (flat SQLite statement, every expression in C02's fragment in its clause's context) it holds,
+   and the token view and the denoted statement exist *)
+Theorem C04_on_fragment : forall x, sel_frag x = true ->
+  exists fl ts a, flat_of x = Some fl /\ flat_toks fl = Some ts /\ flat_ast fl = Some a
+    /\ str_query x = Ok (sflatten ts)
+    /\ exists F, forall f, F <= f -> read_select f ts = Some a.
+Proof.
+  intros x H. unfold sel_frag in H. destruct (flat_of x) as [fl|] eqn:E; [|discriminate].
+  destruct (flat_reader fl H) as [ts [a [T [A R]]]].
+  exists fl, ts, a. repeat split; auto. exact (flat_text x fl ts E T).
+Qed.
+Print Assumptions C04_on_fragment.
+
+(* the text of EVERY flat statement (fragment or not) is its token view flattened *)
+Theorem C04_text_is_tokens : forall x fl ts, flat_of x = Some fl -> flat_toks fl = Some ts -> str_query x = Ok (sflatten ts).
+Proof. exact flat_text. Qed.
+Print Assumptions C04_text_is_tokens.
+
+(* statement-level print/parse: reading the print of any well-formed abstract statement gives the statement back *)
+Theorem C04_statement_print_parse : forall a, ast_ok a -> exists F, forall f, F <= f -> read_select f (ast_toks a) = Some a.
+Proof. exact read_print_select. Qed.
+Print Assumptions C04_statement_print_parse.
+
+(* the reader is deterministic across fuels *)
+Theorem C04_reader_deterministic : forall f1 f2 s a1 a2, read_select f1 s = Some a1 -> read_select f2 s = Some a2 -> a1 = a2.
+Proof. exact read_select_det. Qed.
+Print Assumptions C04_reader_deterministic.
+
+(* what an expression of the denoted statement is: the normal form of the specified term's tree, which denotes the
+   same function under every interpretation obeying the identities pypika relies on (composition with C02) *)
+Theorem C04_expressions_denote : forall c t e, eexpr c t = Some e ->
+  exists e0, to_expr c t = Some e0 /\ e = norm e0
+    /\ forall V sa sn snot (sb : binop -> V -> V -> V) sp si sbt sc scs, obeys_identities sb ->
+         eval V sa sn snot sb sp si sbt sc scs e = eval V sa sn snot sb sp si sbt sc scs e0.
+Proof.
+  intros c t e H. unfold eexpr in H. destruct (to_expr c t) as [e0|]; [|discriminate]. inversion H; subst.
+  exists e0. repeat split. intros. apply eval_norm. assumption.
+Qed.
+Print Assumptions C04_expressions_denote.
+
+(* ------------------------------------------------------------------------------------------- *)
+(* the skeleton: every SELECT of every class (sub-queries, WITH, joins ... included)             *)
+(* ------------------------------------------------------------------------------------------- *)
+Theorem C04_skeleton_partial :
+  (* the rendered statement is the concatenation of its clause segments in [sel_order], then parenthesised / aliased *)
+  (forall kin wa_ sq_ ali c withs d sels from joins wh hv gb ob l o fu a, sels <> [] ->
+     rquery kin wa_ sq_ ali (QSel c withs d sels from joins wh hv gb ob l o fu a) =
+     (s <- sel_segs kin c withs d sels from joins wh hv gb ob l o fu ;; Ok (finish kin c wa_ sq_ ali (assemble s))))
+  (* and [sel_order] is the order in which QueryBuilder.get_sql calls the clause renderers (extracted on every run) *)
+  /\ map clause_call sel_order = filter is_modelled (map snd x_select_path)
+  /\ filter (fun s => negb (is_modelled s)) (map snd x_select_path) = unmodelled_calls
+  (* with the per-clause item flags and separators of the code *)
+  /\ model_item_flags = x_item_flags
+  /\ x_pagination = [("_limit is not None", "_limit_sql"); ("_offset", "_offset_sql")]
+  /\ x_distinct = ("DISTINCT ", "").
+Proof.
+  split; [intros; apply select_is_its_segments; assumption|].
+  split; [exact clause_order_matches_code|]. split; [exact unmodelled_are_known|].
+  split; [exact item_flags_match_code|]. split; [exact pagination_matches_code | exact distinct_matches_code].
+Qed.
+Print Assumptions C04_skeleton_partial.
+
+(* every list-valued segment lists exactly the specification's items, one text per item, in the order given; an
+   expression item is Terms.render of the specified term (source references resolved) in the clause's context *)
+Theorem C04_segments_list_the_items :
+  (forall kk srcs c l ss, seg_items kk srcs c l = Ok ss <-> Forall2 (fun y s => ritem kk srcs c y = Ok s) l ss)
+  /\ (forall k srcs c t, ritem k srcs c (IT t) = render c (map_tref (resolve_tref srcs) t))
+  /\ (forall k ci l ns ss, seg_from k ci l ns = Ok ss <->
+        Forall2 (fun sn s => src_text k ci (fst sn) (snd sn) = Ok s)
+                (combine l (map (fun i => nth i ns None) (seq 0 (List.length l)))) ss)
+  /\ (forall k kk srcs ci l ns ss, seg_joins k kk srcs ci l ns = Ok ss -> List.length ss = List.length l)
+  /\ (forall k kk srcs ci aref l ss, seg_groups k kk srcs ci aref l = Ok ss <->
+        Forall2 (fun y s => match (if k_gba k then aref y else None) with
+                            | Some a => s = fq (or_ostr (aq (kc k)) (q (kc k))) a
+                            | None => ritem kk srcs (ci false false) y = Ok s end) l ss)
+  /\ (forall k kk srcs ci aref l ss, seg_orders k kk srcs ci aref l = Ok ss <->
+        Forall2 (fun yd s => exists a,
+                   match aref (fst yd) with
+                   | Some al => a = fq (or_ostr (aq (kc k)) (q (kc k))) al
+                   | None => ritem kk srcs (ci false false) (fst yd) = Ok a end
+                   /\ s = match snd yd with Some d' => a ++ " " ++ order_text d' | None => a end) l ss).
+Proof.
+  split; [exact seg_items_spec|]. split; [exact ritem_IT|]. split; [exact seg_from_spec|].
+  split; [exact seg_joins_length|]. split; [exact seg_groups_spec | exact seg_orders_spec].
+Qed.
+Print Assumptions C04_segments_list_the_items.
+
+(* column references bound to a source are qualified as soon as the statement has a join or a second source (C10's
+   statement, at the place where C04 needs it) *)
+Theorem C04_bound_columns_qualified :
+  (forall from joins srcs wh, joins <> [] \/ 2 <= List.length from -> wns_of from joins srcs wh = true)
+  /\ (forall c name tb, wn c = true -> wa c = false ->
+        render c (TField name (Some tb) None) = Ok (fq (q c) (table_name tb) ++ "." ++ fq (q c) name)).
+Proof.
+  split.
+  - intros from joins srcs wh [H|H]; unfold wns_of.
+    + destruct joins; [congruence|]. reflexivity.
+    + destruct from as [|s1 [|s2 r]]; cbn in H; try lia. cbn [List.length Nat.ltb Nat.leb]. rewrite orb_true_r. reflexivity.
+  - intros c name tb Hn Ha. cbn [render]. rewrite Hn, Ha. reflexivity.
+Qed.
+Print Assumptions C04_bound_columns_qualified.
+
+(* ------------------------------------------------------------------------------------------- *)
+(* non-vacuity                                                                                   *)
+(* ------------------------------------------------------------------------------------------- *)
+Definition ex_t : tref := {| tname := "t"; tschema := []; talias := None |}.
+Definition ex_u : tref := {| tname := "u"; tschema := []; talias := Some "x" |}.
+Definition ex_f0 (n : string) := TField n (Some {| tname := "#0"; tschema := []; talias := None |}) None.
+Definition ex_f1 (n : string) := TField n (Some {| tname := "#1"; tschema := []; talias := None |}) None.
+Definition ex_q : query :=
+  QSel CSQLLite [] true
+       [IT (TArith OAdd (ex_f0 "a") (TValI 1 None) (Some "al")); IT (ex_f1 "b"); IT (TFunc "SUM" (TCons (ex_f0 "c") TNil) None None)]
+       [SrcT ex_t]
+       [(JLeft, SrcT ex_u, JOn (IT (TBasic CEq (ex_f0 "a") (ex_f1 "a") None))); (JInner, SrcT ex_t, JUsing ["id"])]
+       (Some (IT (TCplx BAnd (TBasic CGt (ex_f0 "a") (TValI 2 None) None)
+                         (TCplx BOr (TIsNull (ex_f1 "b") None) (TBasic CLt (ex_f1 "c") (TValI 5 None) None) None) None)))
+       (Some (IT (TBasic CGt (TFunc "SUM" (TCons (ex_f0 "c") TNil) None None) (TValI 0 None) None)))
+       [IT (TArith OAdd (ex_f0 "a") (TValI 1 None) (Some "al")); IT (ex_f1 "b")]
+       [(IT (TArith OAdd (ex_f0 "a") (TValI 1 None) (Some "al")), Some Desc); (IT (ex_f1 "b"), None)]
+       (Some 10%Z) (Some 2%Z) false None.
+
+Example C04_example :
+  sel_frag ex_q = true
+  /\ str_query ex_q = Ok ("SELECT DISTINCT ""t"".""a""+1 ""al"",""x"".""b"",SUM(""t"".""c"") FROM ""t"" LEFT JOIN ""u"" ""x"" ON ""t"".""a""=""x"".""a"" JOIN ""t"" ""t2"" USING (""id"") WHERE ""t"".""a"">2 AND (""x"".""b"" IS NULL OR ""x"".""c""<5) GROUP BY ""al"",""x"".""b"" HAVING SUM(""t"".""c"")>0 ORDER BY ""al"" DESC,""x"".""b"" LIMIT 10 OFFSET 2")
+  /\ match flat_of ex_q with
+     | Some fl => match flat_toks fl, flat_ast fl with
+                  | Some ts, Some a =>
+                      a_where a = Some (EBin (BB BAnd) (EBin (BC CGt) (EAtom """t"".""a""") (EAtom "2"))
+                                             (EBin (BB BOr) (EPost PIsNull (EAtom """x"".""b""")) (EBin (BC CLt) (EAtom """x"".""c""") (EAtom "5"))))
+                      /\ List.length (a_items a) = 3 /\ List.length (a_joins a) = 2
+                      /\ a_order a = [(EAtom """al""", Some Desc); (EAtom """x"".""b""", None)]
+                      /\ a_limit a = Some 10%Z /\ a_offset a = Some 2%Z
+                  | _, _ => False end
+     | None => False end.
+Proof. vm_compute. repeat split. Qed.
